@@ -181,9 +181,13 @@ def rule_index_conventions(ctx, repo):
         ok = ok and Q.has("self.calls.append_ijv($jn, $ei, $vi, 0)", fn, e)
         jn = Q.first("$jn = f'{$eqn.e_code}{$var.v_code}'", fn)[1]
         ok = ok and jn is not None
-    ctx.check(ok, "C03.index", "SymProcessor.generate_jacobians",
-              "entries filed under e_code+v_code with (e_idx, v_idx)",
-              "generator's triplet filing changed shape (cannot confirm index convention)", g.W())
+    # a shape rule: when the generator is written differently the convention cannot be confirmed HERE -- that is UNDECIDED, not a
+    # violation (the content of the filed triplets is decided by the translation validation C03.tv on the generator's output)
+    if ok:
+        ctx.ok("C03.index", "SymProcessor.generate_jacobians", "entries filed under e_code+v_code with (e_idx, v_idx)", g.W())
+    else:
+        ctx.undecided("C03.index", "SymProcessor.generate_jacobians",
+                      "generator's triplet filing changed shape (index convention decided by C03.tv on its output only)", g.W())
 
     # Model.store_sparse_pattern: k-th address triplet == k-th generated entry, constants use val
     s = F.method(repo, "Model", "store_sparse_pattern", MODEL)
@@ -214,48 +218,97 @@ def rule_pattern(ctx, repo):
     """pattern superset of update set; template never mutated between updates."""
     s = F.method(repo, "System", "store_sparse_pattern", SYSTEM)
     fn = s.fn
-    outer = Q.loops(fn, "jac_names", "$j")
-    e = outer[0][1] if outer else None
-    has_plain = e is not None and bool(Q.loops(fn, "$m.triplets.zip_ijv($j)", None, e))
-    has_const = e is not None and bool(Q.loops(fn, "$m.triplets.zip_ijv($j + 'c')", None, e))
-    over_models = bool(Q.loops(fn, "models.values()"))
-    ctx.check(has_plain and over_models, "C03.pattern", "System.store_sparse_pattern/variable",
-              "every model's variable triplets of each of fx,fy,gx,gy enter the template",
-              "template no longer enumerates mdl.triplets.zip_ijv(jname) for all jac_names and all models", s.W())
-    ctx.check(has_const and over_models, "C03.pattern", "System.store_sparse_pattern/constant",
-              "every model's constant triplets enter the template with their value",
-              "template no longer enumerates the constant triplets zip_ijv(jname + 'c')", s.W())
-    # constants carry their value, variables carry zeros
-    okv = False
-    for lp, e2 in (Q.loops(fn, "$m.triplets.zip_ijv($j + 'c')", "($r, $c, $v)", e) if e else []):
-        if Q.has("$ii.extend($r)", lp, e2) and Q.has("$jj.extend($c)", lp, e2) and Q.has("$vv.extend($v * np.ones_like($r))", lp, e2):
-            okv = True
-    ctx.check(okv, "C03.pattern", "System.store_sparse_pattern/constant-values",
-              "constant triplets contribute (row, col, val*ones)",
-              "constant Jacobian values no longer enter the template as val*ones at (row, col)", s.W())
-    # gy diagonal reserved
-    ok = False
-    for tnode in s.tests(lambda c: "'gy'" in c and "==" in c):
-        stmts = [s.g.data(n)["ast"] for n in s.g.nodes() if s.g.data(n)["kind"] == "stmt" and s.g.guarded_by(n, tnode, "true")]
-        if any(Q.match("$ii.extend(np.arange(self.dae.m))", x) for x in stmts) and \
-                sum(1 for x in stmts if Q.match("$a.extend(np.arange(self.dae.m))", x)) >= 2:
-            ok = True
-    ctx.check(ok, "C03.pattern", "System.store_sparse_pattern/gy-diagonal", "gy main diagonal reserved",
-              "gy diagonal is no longer reserved in the template", s.W())
-    st = s.calls("self.dae.store_sparse_ijv")
-    bp = s.calls("self.dae.build_pattern")
-    ok1, w1 = s.after(st, bp)
-    ctx.check(bool(st) and ok1, "C03.pattern", "System.store_sparse_pattern/build",
-              "store_sparse_ijv(jname, ii, jj, vv) followed by build_pattern(jname)",
-              "template triplets stored without building the pattern: " + w1, s.W())
-    ok = False
-    if e is not None:
-        for n, e2 in Q.search("self.dae.store_sparse_ijv($j, $ii, $jj, $vv)", fn, e):
-            # the three lists are the ones filled as rows / cols / values
-            if Q.has("$ii.extend($r)", fn, e2) and Q.has("$vv.extend(np.zeros_like($r))", fn, e2):
-                ok = True
-    ctx.check(ok, "C03.pattern", "System.store_sparse_pattern/args", "store_sparse_ijv(name,row,col,val) order",
-              "store_sparse_ijv arguments are not (jname, rows, cols, values)", s.W())
+    # decided by evaluation (engine/tinyexec.py) with two stand-in models whose triplet tables cover: variable entries, constant
+    # entries, several blocks per matrix, an empty matrix; the DAE stand-in records what is stored
+    import numpy as _np
+    from collections import OrderedDict as _OD
+    from engine.tinyexec import TinyExec, Fake
+    from engine.ordertype import Unsupported
+    A = _np.array
+
+    class _Tri(Fake):
+        def __init__(self, table):
+            self.table = table
+
+        def zip_ijv(self, name):
+            return list(self.table.get(name, []))
+
+    class _Mdl(Fake):
+        def __init__(self, table):
+            self.triplets = _Tri(table)
+
+    class _Dae(Fake):
+        def __init__(self):
+            self.m, self.n, self.log = 3, 2, []
+
+        def store_sparse_ijv(self, name, ii, jj, vv):
+            self.log.append(("store", name, [int(x) for x in ii], [int(x) for x in jj], [float(x) for x in vv]))
+
+        def build_pattern(self, name):
+            self.log.append(("build", name))
+
+    class _Sys(Fake):
+        pass
+    m1 = _Mdl({"gy": [(A([0, 1]), A([1, 0]), A([0.0, 0.0])), (A([2]), A([2]), A([0.0]))], "gyc": [(A([0, 1]), A([0, 1]), 2.5)],
+               "fx": [(A([0]), A([1]), A([0.0]))], "fxc": [(A([1]), A([1]), -1.0)], "gx": [(A([1]), A([0]), A([0.0]))]})
+    m2 = _Mdl({"gy": [(A([1]), A([2]), A([0.0]))], "gyc": [(A([2]), A([1]), 7.0)], "fyc": [(A([0, 1]), A([2, 2]), 4.0)]})
+    sysobj = _Sys()
+    sysobj.dae = _Dae()
+    stubs = {"self.call_models": lambda *a_, **k_: None, "jac_names": ("fx", "fy", "gx", "gy"), "np.arange": _np.arange, "np.zeros": _np.zeros,
+             "np.ones": _np.ones, "np.zeros_like": _np.zeros_like, "np.ones_like": _np.ones_like, "np.array": _np.array, "np.asarray": _np.asarray,
+             "np.concatenate": _np.concatenate, "np.hstack": _np.hstack, "np.full": _np.full, "np.full_like": _np.full_like,
+             "np.append": _np.append, "np.repeat": _np.repeat, "int": int, "float": float, "OrderedDict": _OD}
+    models = _OD([("A", m1), ("B", m2)])
+    und = None
+    try:
+        TinyExec(repo, "System", SYSTEM, stubs=stubs).call("store_sparse_pattern", sysobj, models)
+    except Unsupported as ex:
+        und = str(ex)
+    constructs = {"variable": ("every model's variable triplets of each of fx,fy,gx,gy enter the template", []),
+                  "constant": ("every model's constant triplets enter the template", []),
+                  "constant-values": ("constant triplets contribute (row, col, val*ones); variable triplets contribute zeros", []),
+                  "gy-diagonal": ("gy main diagonal reserved", []),
+                  "build": ("store_sparse_ijv(jname, ii, jj, vv) followed by build_pattern(jname)", []),
+                  "args": ("store_sparse_ijv(name,row,col,val) order", [])}
+    if und:
+        for c_ in constructs:
+            ctx.undecided("C03.pattern", "System.store_sparse_pattern/%s" % c_, "evaluator: %s" % und, s.W())
+    else:
+        log = sysobj.dae.log
+        for jn in ("fx", "fy", "gx", "gy"):
+            st_ = [x for x in log if x[0] == "store" and x[1] == jn]
+            if len(st_) != 1:
+                constructs["build"][1].append("%s stored %d times" % (jn, len(st_)))
+                continue
+            k_ = log.index(st_[0])
+            if not any(x == ("build", jn) for x in log[k_ + 1:]):
+                constructs["build"][1].append("no build_pattern(%r) after the store" % jn)
+            got = sorted(zip(st_[0][2], st_[0][3], st_[0][4]))
+            var = sorted((int(r_), int(c_), 0.0) for mm in (m1, m2) for (rr, cc, _v) in mm.triplets.table.get(jn, []) for r_, c_ in zip(rr, cc))
+            con = sorted((int(r_), int(c_), float(v_)) for mm in (m1, m2) for (rr, cc, v_) in mm.triplets.table.get(jn + "c", []) for r_, c_ in zip(rr, cc))
+            diag = [(i_, i_, 0.0) for i_ in range(3)] if jn == "gy" else []
+            pos = lambda L: sorted((a_, b_) for a_, b_, _ in L)      # noqa: E731
+            if got == sorted(var + con + diag):
+                continue
+            gpos = pos(got)
+            swapped = sorted((b_, a_) for a_, b_ in gpos) == pos(var + con + diag) and gpos != pos(var + con + diag)
+            if swapped:
+                constructs["args"][1].append("%s: rows and columns exchanged" % jn)
+            elif gpos == pos(var + con + diag):
+                constructs["constant-values"][1].append("%s: stored values %s, expected %s" % (jn, got, sorted(var + con + diag)))
+            else:
+                missing = [x for x in pos(var + con + diag) if x not in gpos]
+                if any(x in pos(var) for x in missing):
+                    constructs["variable"][1].append("%s: variable positions %s missing" % (jn, [x for x in missing if x in pos(var)]))
+                if any(x in pos(con) for x in missing):
+                    constructs["constant"][1].append("%s: constant positions %s missing" % (jn, [x for x in missing if x in pos(con)]))
+                if any(x in pos(diag) and x not in pos(var + con) for x in missing):
+                    constructs["gy-diagonal"][1].append("gy diagonal positions missing")
+                if not missing:
+                    constructs["variable"][1].append("%s: extra positions %s" % (jn, [x for x in gpos if x not in pos(var + con + diag)]))
+        for c_, (txt, bad) in constructs.items():
+            ctx.check(not bad, "C03.pattern", "System.store_sparse_pattern/%s" % c_, txt,
+                      "the sparsity template differs from the models' triplets: " + "; ".join(bad[:2]), s.W())
 
     # DAE side: build_pattern -> tpl from (V,I,J) and restore_sparse from tpl (V, I, J)
     b = F.method(repo, "DAE", "build_pattern", DAE)
